@@ -38,9 +38,6 @@ Definition io_label (i : io) : Z :=
 
 Definition checkedout (cf : cfg) (s : pst) : Z := psize cf - Z.of_nat (length (q s)) + ov s.
 
-Definition init_pst (cf : cfg) : pst :=
-  mkpst [] (0 - psize cf) None None false false None 0 0 0 false [].
-Definition init_world : world := mkw [] [] [].
 
 Definition the_run (asyncp : bool) (p : ptree) (w : world) (cs : list cdec) : res * world * list cdec * list (ev io) :=
   if asyncp then run_loop io_step io_cancel_step io_suspends ECancelled p w cs
@@ -88,7 +85,7 @@ Definition run_case (t : tree) : tree :=
                                     end) tr);
               of_list (fun e => L [of_nat (fst e); I (snd e)]) (rev (sqllog w));
               of_list I (committed w);
-              of_list (fun d => of_bool (d_txn d)) (conns w);
+              of_list (fun c => of_bool (d_txn (getc w c))) (seq 0 (nconn w));
               of_list (fun r => match r_conn r with Some c => of_nat c | None => I (-1) end) (q s);
               L [of_nat (n_out s); of_nat (n_in s); of_nat (n_warn s)];
               of_bool (oom s) ]
